@@ -105,6 +105,11 @@ FACT_DEPS = {
     'prim newRegistry': ['C03', 'C07', 'C09'],
     'prim newStandaloneRegistry': ['C03', 'C19', 'C09'],
     'prim snapshotScanner': ['C01', 'C03', 'C04', 'C07', 'C10', 'C18'],
+    'prim naturalSort': ['C05', 'C07', 'C09', 'C10'],
+    'mod github.com/maruel/natural': ['C05', 'C07', 'C09', 'C10'],
+    'mod github.com/tidwall/gjson': ['C14', 'C15', 'C16', 'C17'],
+    'mod github.com/tidwall/pretty': ['C12', 'C14'],
+    'mod github.com/tidwall/sjson': ['C15', 'C16'],
     'prim Any': ['C15', 'C16', 'C17'],
     'prim Custom': ['C15', 'C16', 'C17'],
     'prim Type': ['C15', 'C16', 'C17'],
